@@ -13,7 +13,7 @@ attribute names. A function "changed shape" when
   * it calls a function or class of the package that exists nowhere in the reference (an extracted / pulled-up helper, a new record type) and that
     the interpreter did not enter during this run (rules declared `follows_calls` only),
   * it calls a package function whose parameter list changed (every definition of that name),
-  * it reads a module-level name or an attribute name that exists nowhere in the reference (a new lookup table, a merged private field).
+  * it reads a module-level lookup table (a name bound to a dictionary) or a field that exists nowhere in the reference / is new to its class.
 
 Findings a rule marks `definite` (a positively wrong construct was identified, not an expected one missed) are never withheld.
 """
@@ -56,9 +56,11 @@ def _params(fn: ast.AST) -> List[str]:
 
 
 def _module_level_names(tree: ast.AST) -> Set[str]:
+    """Module-level *lookup tables* (names bound to a dictionary display / comprehension): a new one means logic moved from statements into data.
+    Plain constants (a format string, a limit, a timedelta, a set of names) are not a change of shape - a rule can read the expression that uses them."""
     out: Set[str] = set()
     for st in getattr(tree, "body", []):
-        if isinstance(st, (ast.Assign, ast.AnnAssign)):
+        if isinstance(st, (ast.Assign, ast.AnnAssign)) and isinstance(getattr(st, "value", None), (ast.Dict, ast.DictComp)):
             for t in st.targets if isinstance(st, ast.Assign) else [st.target]:
                 if isinstance(t, ast.Name):
                     out.add(t.id)
